@@ -16,8 +16,9 @@ Extracted as data / tiny programs (types in coq/Model/PedanticCfg.v):
   * GeneratorWrapper: the list of accepted base generics.
 The text predicates of DecoratedFunction and the routing `is_coroutine -> async_wrapper` are matched
 exactly (fail closed).  The functions that are modelled by hand in coq/Model/Pedantic.v and
-coq/Model/GenWrapper.v are emitted as (name, hash of the normalised AST) pairs: `locks`; the theorem
-`model_locks` in coq/Props/C03.v compares them with the hashes the model was written against.
+coq/Model/GenWrapper.v are emitted as (name, hash of the normalised AST) pairs: `locks`; the drivers of
+C03 / C04 / C05 compare them with the committed coq/Gen.baseline/Pedantic.v (the tree the hand-written model was
+validated against) - obligation `locks:hand-modelled-functions`.
 Nothing is evaluated; anything outside the whitelist raises Untranslatable."""
 import ast, hashlib
 from common import *
@@ -41,17 +42,29 @@ def bad(reason):
     raise Untranslatable(UNIT, reason)
 
 
-def ndump(node):
-    """AST dump without positions and without docstrings"""
-    node = ast.parse(ast.unparse(node)) if not isinstance(node, ast.Module) else node
+SKIP_FIELDS = {'type_params', 'type_comment', 'kind', 'ctx', 'lineno', 'col_offset', 'end_lineno', 'end_col_offset'}
 
-    class Strip(ast.NodeTransformer):
-        def _body(self, n):
-            self.generic_visit(n)
-            n.body = strip_doc(n.body) or [ast.Pass()]
-            return n
-        visit_FunctionDef = visit_AsyncFunctionDef = visit_ClassDef = _body
-    return ast.dump(Strip().visit(node), annotate_fields=False, include_attributes=False)
+
+def ndump(node):
+    """dump of an AST that does not depend on the Python version running the translator: node class names and the
+    non-empty fields of the grammar the library is written in; positions and docstrings are ignored"""
+    def go(n, top_body=False):
+        if isinstance(n, ast.AST):
+            parts = []
+            for f in n._fields:
+                if f in SKIP_FIELDS:
+                    continue
+                v = getattr(n, f, None)
+                if f == 'body' and isinstance(n, (ast.FunctionDef, ast.AsyncFunctionDef, ast.ClassDef)):
+                    v = strip_doc(v)
+                if v is None or v == []:
+                    continue
+                parts.append(f + '=' + go(v))
+            return type(n).__name__ + '(' + ','.join(parts) + ')'
+        if isinstance(n, list):
+            return '[' + ','.join(go(x) for x in n) + ']'
+        return repr(n)
+    return go(node)
 
 
 def same(node, text, mode='expr'):
